@@ -119,6 +119,15 @@ theorem jet_no_residue (before : List (String → Bool)) :
   simp only [Nat.zero_add] at h
   exact h
 
+/-- the pools this account covers are all the pools there are: one for the Runtime (above) and the
+    three ranger pools, whose objects are completely re-initialised by `Setup` on every `Get` (every
+    field of every pooled ranger type is assigned there).  A new `sync.Pool` anywhere in the
+    package, or a ranger field `Setup` does not assign, breaks this theorem. -/
+theorem pools_are_accounted_for :
+    Facts.syncPools = ["eval.go:1", "ranger.go:3"] ∧
+    Facts.pooledRangers.length = 3 ∧
+    (∀ r ∈ Facts.pooledRangers, ∀ f ∈ r.2.1, f ∈ r.2.2) := by decide
+
 /-- non-vacuity: the discipline is about real fields (content and context are among them) and the
     content closure — the field only `recover` clears — is covered by the reset, not by Execute -/
 example : "Runtime.content" ∈ jet.used ∧ "Runtime.content" ∉ jet.always ∧ "Runtime.content" ∈ jet.resets := by
